@@ -489,10 +489,10 @@ MemoMonotone == [][\A f \in DOMAIN memo : memo[f] \subseteq memo'[f]]_vars
 DerivFormulaAgrees ==
   [][(act'.name = "CvDerivate" /\ heap[act'.obj].W = <<>> /\ Deg(heap[act'.obj].U) >= 1) =>
         \A i \in DOMAIN ret'.val :
-           ret'.val[i][2] = DerivFormulaEval(heap[act'.obj].U, heap[act'.obj].P, ret'.val[i][1])]_vars
+           EqT(ret'.val[i][2], DerivFormulaEval(heap[act'.obj].U, heap[act'.obj].P, ret'.val[i][1]))]_vars
 (* C10: closed form of the spline integral equals exact quadrature *)
 IntegralAgrees ==
-  [][act'.name = "CvIntegrate" => ret'.val = IntegralOf(AsCurve(heap[act'.obj]))]_vars
+  [][act'.name = "CvIntegrate" => EqT(ret'.val, IntegralOf(AsCurve(heap[act'.obj])))]_vars
 (* C18: generated vectors *)
 GenProps ==
   [][act'.name = "KvGen" =>
@@ -516,13 +516,19 @@ SpecObs3(c, b, d) == SpecObsOn(SeqOfSet(KnotSet(c.U) \cup KnotSet(b.U) \cup Knot
 SpecObs(c, d) == SpecObsOn(CommonBreaks(c.U, d.U), Deg(c.U) + Deg(d.U), d)
 
 (* C05 / C06: the model's own removal / reduction transitions satisfy the relational clauses *)
+ObsClean(dv) == \A i \in DOMAIN dv : ~IsNaR(dv[i][2])      \* the model's own arithmetic stayed in range
+ExpClean(c, dv) == \A i \in DOMAIN dv : Valid(c.U, dv[i][1]) => ~IsNaR(Eval(c, dv[i][1]))
 RemoveExactOrRefused ==
-  [][(act'.name = "CvKnotRemove" /\ ret'.class \in {"ok", "Error"} /\ act'.tol[1] # "none") =>
+  [][(act'.name = "CvKnotRemove" /\ ret'.class \in {"ok", "Error"} /\ act'.tol[1] # "none"
+        /\ ObsClean(SpecObs(AsCurve(heap[act'.obj]), AsCurve(heap'[act'.obj])))
+        /\ ExpClean(AsCurve(heap[act'.obj]), SpecObs(AsCurve(heap[act'.obj]), AsCurve(heap'[act'.obj])))) =>
         KnotRemoveClauses(AsCurve(heap[act'.obj]), act'.nodes, act'.tol,
                           IF ret'.class = "ok" THEN "ok" ELSE "ValueError", AsCurve(heap'[act'.obj]),
                           SpecObs(AsCurve(heap[act'.obj]), AsCurve(heap'[act'.obj]))) = {}]_vars
 ReduceExactOrRefused ==
-  [][(act'.name = "CvDegreeDecrease" /\ ret'.class \in {"ok", "Error"} /\ act'.tol[1] # "none") =>
+  [][(act'.name = "CvDegreeDecrease" /\ ret'.class \in {"ok", "Error"} /\ act'.tol[1] # "none"
+        /\ ObsClean(SpecObs(AsCurve(heap[act'.obj]), AsCurve(heap'[act'.obj])))
+        /\ ExpClean(AsCurve(heap[act'.obj]), SpecObs(AsCurve(heap[act'.obj]), AsCurve(heap'[act'.obj])))) =>
         DegreeDecreaseClauses(AsCurve(heap[act'.obj]), act'.times, act'.tol,
                           IF ret'.class = "ok" THEN "ok" ELSE "ValueError", AsCurve(heap'[act'.obj]),
                           SpecObs(AsCurve(heap[act'.obj]), AsCurve(heap'[act'.obj]))) = {}]_vars
@@ -534,7 +540,10 @@ CleanProps ==
         /\ (act'.which = "all" /\ c.W = <<>>) => (Minimal(d) = d)]_vars
 (* C07: the join restricts to both operands *)
 JoinRestores ==
-  [][(act'.name = "CvJoin" /\ ret'.class = "ok" /\ ret'.rel = "exact") =>
+  [][(act'.name = "CvJoin" /\ ret'.class = "ok" /\ ret'.rel = "exact"
+        /\ ObsClean(SpecObs3(AsCurve(heap[act'.obj]), act'.other, ret'.val))
+        /\ ExpClean(AsCurve(heap[act'.obj]), SpecObs3(AsCurve(heap[act'.obj]), act'.other, ret'.val))
+        /\ ExpClean(act'.other, SpecObs3(AsCurve(heap[act'.obj]), act'.other, ret'.val))) =>
         JoinClauses(AsCurve(heap[act'.obj]), act'.other, "ok", ret'.val,
                     SpecObs3(AsCurve(heap[act'.obj]), act'.other, ret'.val)) = {}]_vars
 
